@@ -47,7 +47,9 @@ CHECKS = {
    category="other",
    text="For each enumerated pattern list the solver decides for ALL file names that FilesParagraph.matches - the real regex text from "
         "the real globs_to_re under the call matches() really makes - equals the glob semantics of the property (star incl. '/', "
-        "'?', the three escapes, format errors). Unbounded in names, bounded in pattern structure; find_files_paragraph and the "
+        "'?', the three escapes, format errors). Unbounded in names, bounded in pattern structure. _SpaceSeparated.to_str - what "
+        "assigning a pattern list to `files` stores - is verified from its AST: the values, stripped, joined by exactly one blank, "
+        "in order; format error iff a value is empty or contains whitespace. find_files_paragraph and the "
         "pattern cache are covered by bounded histories.",
    design="DESIGN.md §5 C16",
    note="Trusted: rx translation of re parse trees (DOTALL, MULTILINE, \\Z, alternation with continuation), character sets from the "
@@ -158,14 +160,20 @@ CHECKS.update({
         technique="contract-based deductive verification of the underlying containers (heap as arrays; SMT) + bounded stand-in "
                   "(reference-model comparison over generated documents and histories)"),
  "C12": dict(bounded_only("", "DESIGN.md §5 C12"),
-        text="Proved for all lines by SMT on the real patterns of split_gpg_and_payload: a record line (a continuation line of the "
-             "dumped field) is never taken for a PGP armor line or a paragraph separator, and split_gpg_and_payload (verified from its "
-             "AST) passes exactly the given lines on as payload whenever none matches those patterns. Record <-> line conversion, sub-field names, "
-             "size-column alignment and absent optional fields are decided by a bounded stand-in: for every class with structured "
-             "fields x subsets of those fields x record lists (incl. token triples that look like armor lines, a second dump after a "
-             "record was replaced, another Release object configured the other way), the dump must be exactly the documented text and "
-             "re-parse to the same records.",
-        technique="regex-to-SMT lemmas on the real patterns + bounded stand-in (reference-model comparison over generated records)"),
+        text="Proved from the real ASTs (path-wise verification conditions, nested loop invariants, discharged by z3 / cvc5) for all "
+             "record lists, class tables and keys: _multivalued.get_as_string returns the documented field text (leading newline "
+             "unless a single record; per record ' ' + component in table order; the size component left-padded to the width the "
+             "class's table gives; trailing newlines stripped; ValueError for a newline inside a component); Release / "
+             "PdiffIndex._fixed_field_lengths hold {'size': w} exactly for the present structured fields (pdiff: lists of records "
+             "only) and _get_size_field_length gives w = 16 (apt-ftparchive) or the maximum size length. Also proved on the real "
+             "patterns: a record line is never taken for a PGP armor line or a paragraph separator; split_gpg_and_payload passes "
+             "exactly the given lines on when none matches those patterns. The line -> record conversion of _multivalued.__init__, "
+             "sub-field names, the composition dump -> parse, absent optional fields and isolation between objects are decided by a "
+             "bounded stand-in: for every class with structured fields x subsets of those fields x record lists (incl. token triples "
+             "that look like armor lines, a second dump after a record was replaced, another Release object configured the other "
+             "way), the dump must be exactly the documented text and re-parse to the same records.",
+        technique="contract verification of the real AST (loop invariants over a recursive specification, SMT) + regex-to-SMT lemmas on "
+                  "the real patterns + bounded stand-in (reference-model comparison over generated records)"),
  "C13": dict(bounded_only("", "DESIGN.md §5 C13"),
         text="Proved for all formatted atoms by SMT on the real __dep_RE: every atom that PkgRelation.str can write matches the pattern "
              "(no 'cannot parse' fallback) and each of the six named groups captures exactly the part that was written, absent when it "
@@ -185,7 +193,10 @@ CHECKS.update({
         "and off: lenient never raises, strict raises iff lenient warns, str() is a normal form; plus editing histories;", "DESIGN.md §5 C15"),
  "C17": dict(bounded_only("", "DESIGN.md §5 C17"),
         text="format_multiline_lines is verified from its AST against the per-line encoding (loop invariant), and the per-line round-trip "
-             "lemma (decode(encode(line)) == line unless the line is whitespace-only or a lone '.') is proved for all lines; the decoder "
+             "lemma (decode(encode(line)) == line unless the line is whitespace-only or a lone '.') is proved for all lines; the list "
+             "writers _SpaceSeparated.to_str (pattern lists) and _LineBased.to_str are verified from their ASTs against recursive "
+             "specifications (values stripped, in order, joined by one blank / on lines of their own; format error exactly for "
+             "empty values, values with whitespace resp. newlines); the decoder "
              "loop, the join/splitlines law and whole copyright documents (dump -> strict parse -> dump) are decided by a bounded stand-in: "
              "all line lists of length <= 3/4 over 14 line kinds and seeded documents.",
         technique="contract-based deductive verification of the encoder + lemma (SMT) and a bounded stand-in for decoder and documents"),
